@@ -775,7 +775,10 @@ func (e *env) finish(c *call, res result) {
 			}
 			return
 		}
-		if c.nickOpt {
+		if c.nickOpt && strings.HasPrefix(c.how, "client-") {
+			// (a failed change of nickname on an existing channel changes nothing:
+			// the channel's own address only changes once the room has confirmed
+			// it, and that address is what a plain rejoin asks for)
 			r.addrAmbig = true
 		}
 	} else if res.err == nil {
